@@ -11,6 +11,12 @@ def run(tier):
     for alpha, stratum in (([0, 1, 2, 5], "nonneg"), ([0, 1, -2, 3], "signed")):
         plans.append(dict(algo="syncbb", params={}, props=["quiet_fin", "optq"], shapes=SHAPES, alpha=alpha, n=3 if quick else 10,
                           scheds=2 if quick else 4, policies=["random", "starts_first", "lag"], stratum=stratum))
+    # SyncBB passes a single token: the schedule hardly matters, the inputs do.  Many instances over a tiny cost alphabet
+    # (ties between branches and with the bound are frequent), one schedule each.
+    plans.append(dict(algo="syncbb", params={}, props=["quiet_fin", "optq"], shapes=[x for x in SHAPES if x != "single"], alpha=[0, 1, 2],
+                      n=25 if quick else 150, scheds=1, policies=["random"]))
+    plans.append(dict(algo="syncbb", params={}, props=["quiet_fin", "optq"], shapes=["path3d3", "pair3", "pairrev", "triangle", "path4"], alpha=[1, 2, 3, 4],
+                      n=15 if quick else 100, scheds=1, policies=["starts_first"]))
     v = run_algo_check("C02", tier, "model_checking", plans, CLAUSES,
                        nontrivial=lambda vd, m: vd["quiet"] and len(m["inst"]["vars"]) > 1,
                        key_extra=lambda vd, m: {"costs": "signed" if any(x < 0 for c in m["inst"]["cons"] for x in c["tab"]) else "nonneg"},
